@@ -3,6 +3,8 @@ from .check_sched import finish
 from .evidence import Evidence
 from .fn_engine import replay_fn, run_fn
 
+from .regrid_run import prime_variants  # noqa: E402
+
 RUNNER = ("regrid_run", "run_case")
 
 
@@ -16,7 +18,8 @@ def check(pid, tier):
     for what, qcap in (("identity", 400), ("nearest", 1500), ("mesh", None), ("linear", 400)):
         traces, _ = run_fn(pid, ev, violations, machinery, "RegridEmit", "Regrid_Trace", RUNNER, clause_property,
                            "regrid-case", emit_env={"WHAT": what}, cap=qcap if tier == "quick" else None,
-                           nontrivial=lambda t: t["case"]["c"]["sm"] or t["case"]["c"]["tm"] or t["case"]["c"]["su"] != "struct")
+                           nontrivial=lambda t: t["case"]["c"]["sm"] or t["case"]["c"]["tm"] or t["case"]["c"]["su"] != "struct",
+                           derive=prime_variants)
         if what == "linear":
             masked = sum(1 for t in traces if any(t["obs"]["mask"]))
             if masked == 0 or masked == len(traces):
